@@ -2,15 +2,24 @@
 Property C18 — theorems about the models of prime_residue_classes.rs, traits.rs,
 vec_matrix.rs / matrix.rs (Model/PrimeResidue.lean, Model/LinAlg.lean).
 
-✔ proved here: prc_canonical, prc_frombig_canonical, prc_no_overflow, prc_ring_hom,
-  prc_val_bijective, prc_inverse, prc_div_is_field_div, prime_PRIME, gcdx_spec,
-  clear_col_i64_unimodular, echelon_no_panic (i64), echelon_no_panic_rat,
-  echelon_no_panic_prc(_of_int), no_panic_any_shape_{i64,rat,prc}, no_panic_square_{i64,rat,prc}
-  (every routine, every shape), rational_reconstruction_invariant, rational_reconstruction_no_panic.
-○ not proved (conf/C18.json open_obligations): echelon_invariant, solve_sound,
-  lifting_invariant; ◐ solve_complete, rank/det/null
-  space = Mathlib's, end-to-end exactness of the modular solver — decided per explored input
-  by Spec/C18.lean on the implementation's outputs.
+✔ proved here (all about the models, for all inputs):
+  prime classes: prc_canonical, prc_frombig_canonical, prc_no_overflow, prc_ring_hom,
+    prc_val_bijective, prc_inverse, prc_div_is_field_div, prime_PRIME;
+  gcd core: gcdx_spec, clear_col_i64_unimodular;
+  no panic: echelon_no_panic{,_rat,_prc,_prc_of_int}, no_panic_any_shape_{i64,rat,prc},
+    no_panic_square_{i64,rat,prc};
+  meaning in Mathlib's `Matrix` (ℤ/ℚ for machine integers, ℚ for BigRational, ZMod p):
+    echelon_invariant_{i64,rat,prc} (multiplier·input = result, det multiplier = (-1)^swaps,
+    row-echelon form), solve_sound_{i64,rat,prc}, solve_complete_{rat,prc}, solve_none_i64,
+    inverse_sound_i64, inverse_iff_{rat,prc} (Some ⇔ rank = n), rank_eq_{i64,rat,prc}
+    (= Matrix.rank), determinant_eq_{i64,rat,prc} (= Matrix.det), null_space_spec
+    (cols − rank columns, A·N = 0, linearly independent), sem_instances;
+  modular solver: rational_reconstruction_invariant, rational_reconstruction_no_panic,
+    rational_reconstruction_unique, lifting_invariant, modular_solver_exact (conditional on
+    the step count: `(|N|+D)² < p^steps`).
+Not proved: that the floating-point step count of the code meets the hypothesis of
+  modular_solver_exact; anything about f64; machine-integer overflow (theorems are about
+  idealised integers, known finding F-C18-overflow).
 -/
 import Mathlib.Tactic.NormNum.Prime
 import DSymVerif.Proofs.PrimeResidue
@@ -19,6 +28,7 @@ import DSymVerif.Proofs.EchelonField
 import DSymVerif.Proofs.Routines
 import DSymVerif.Proofs.RatRec
 import DSymVerif.Proofs.Instances
+import DSymVerif.Proofs.Lifting
 
 namespace DSymVerif.C18
 
@@ -493,5 +503,60 @@ example : rationalReconstruction 607400099 3037000493 = .ok ⟨2, 5⟩ := by dec
 theorem rational_reconstruction_no_panic (s h : Int) (hs : 0 ≤ s) (hsh : s ≤ h) :
     ∃ q, rationalReconstruction s h = .ok q :=
   rationalReconstruction_total s h hs hsh
+
+/-- the reconstructed fraction is the unique small one: for `0 ≤ s ≤ h`, `1 ≤ h`, if `N/D`
+    (`D ≥ 1`) satisfies `N ≡ s·D (mod h)` and `(|N| + D)² < h`, then the returned `q` is `N/D` -/
+theorem rational_reconstruction_unique (s h : Int) (hs : 0 ≤ s) (hsh : s ≤ h) (hh : 1 ≤ h) (q : Q)
+    (hq : rationalReconstruction s h = .ok q) (N D : Int) (hD : 1 ≤ D) (hc : h ∣ N - s * D)
+    (hb : (|N| + D) * (|N| + D) < h) : q.num * D = N * (q.den : Int) := by
+  obtain ⟨n, d, hdvd, hval, hn, hd1, hd⟩ := rationalReconstruction_full s h hs hsh hh q hq
+  have hu := ratRec_unique hh hdvd hc hn hd1 hd hD hb
+  have hdne : d ≠ 0 := by omega
+  have : q.num * D * d = N * (q.den : Int) * d := by
+    calc q.num * D * d = (q.num * d) * D := by ring
+      _ = n * (q.den : Int) * D := by rw [hval]
+      _ = (n * D) * (q.den : Int) := by ring
+      _ = N * d * (q.den : Int) := by rw [hu]
+      _ = N * (q.den : Int) * d := by ring
+  exact mul_right_cancel₀ hdne this
+
+/-- `lifting_invariant`: given a mod-`p` inverse `cinv` of `A` (canonical entries), the loop
+    `for step in 0..nr_steps` of `modular_solver::solve` returns `s`, `p = P^nr_steps` with
+    `0 ≤ s < P^nr_steps` entrywise and `A·s ≡ b (mod P^nr_steps)` (`b − A·s = P^nr_steps • E`) -/
+theorem lifting_invariant (p : ℕ) [Fact p.Prime] (hpm : (p : ℤ) ≤ PRC.maxP) {n k : Nat}
+    (a cinv : Mat Int n n) (b : Mat Int n k) (hcE : AllE (Canon p) cinv)
+    (hinv : modP p (toMatrixZ a) * toMatrix (valP p) cinv = 1) (nrSteps : Nat) :
+    ∃ st, forRange 0 nrSteps ({ b := b, s := Mat.fill 0, p := 1 } : LiftState n k)
+        (liftStep p a cinv nrSteps) = .ok st ∧
+      st.p = (p : ℤ) ^ nrSteps ∧
+      (∀ (i j : Nat) (hi : i < n) (hj : j < k),
+        0 ≤ (st.s[i])[j] ∧ (st.s[i])[j] < (p : ℤ) ^ nrSteps) ∧
+      ∃ Em : Matrix (Fin n) (Fin k) ℤ,
+        toMatrixZ b - toMatrixZ a * toMatrixZ st.s = (p : ℤ) ^ nrSteps • Em :=
+  lifting_loop hpm a cinv b hcE hinv nrSteps
+
+/-- end-to-end exactness of the p-adic solver, conditional on the step count (the
+    floating-point derived bound stays an explicit hypothesis): if `A` is non-singular modulo the
+    prime `p` (accepted by `valid()`), `X` is the rational solution of `A·X = B` with entries
+    `X i j = N i j / D i j`, `D i j ≥ 1`, and `(|N i j| + D i j)² < p^steps`, then
+    `modular_solver::solve` (model `modSolve p steps`) returns exactly `X`, every entry a
+    well-formed fraction.  (The hypothesis is what this reconstruction's stopping rule
+    `u1² ≤ h` needs in the crude lattice argument; the code's Hadamard bound gives
+    `p^steps ≥ φ²·δ²` for `|N|, D ≤ δ`, which the sharper continued-fraction argument — not
+    formalised — shows sufficient.) -/
+theorem modular_solver_exact (p : ℕ) [Fact p.Prime] (hpm : (p : ℤ) ≤ PRC.maxP) (steps : Nat)
+    {n k : Nat} (a : Mat Int n n) (b : Mat Int n k) (hns : ¬ (p : ℤ) ∣ (toMatrixZ a).det)
+    (Xq : Matrix (Fin n) (Fin k) ℚ)
+    (hX : (toMatrixZ a).map (Int.castRingHom ℚ) * Xq = (toMatrixZ b).map (Int.castRingHom ℚ))
+    (N D : Fin n → Fin k → ℤ) (hD : ∀ i j, 1 ≤ D i j)
+    (hND : ∀ i j, Xq i j * (D i j : ℚ) = (N i j : ℚ))
+    (hbound : ∀ i j, (|N i j| + D i j) * (|N i j| + D i j) < (p : ℤ) ^ steps) :
+    ∃ X, modSolve p steps a b = .ok X ∧
+      ∀ (i j : Nat) (hi : i < n) (hj : j < k), QWF ((X[i])[j]) ∧
+        valQ ((X[i])[j]) = Xq ⟨i, hi⟩ ⟨j, hj⟩ :=
+  modSolve_exact hpm steps a b hns Xq hX N D hD hND hbound
+
+example : (modSolve 3037000493 1 (#v[#v[2]] : Mat Int 1 1) (#v[#v[1]] : Mat Int 1 1)).bind
+    (fun x => Outcome.ok x.toLists) = .ok [[⟨1, 2⟩]] := by decide +kernel
 
 end DSymVerif.C18
